@@ -29,7 +29,7 @@ RULE = (
     "NON-CONVEX (dart quadrilateral) grids, plain and embedded; sequences: ONE RT0 / MVEM object and "
     "ONE tensor object per K used for two grids in a row (same sizes / different topology; same "
     "topology / different geometry; the same grid object moved), incl. RT0 followed by MVEM on the "
-    "same tensor objects"
+    "same tensor objects; MVEM also on 4 prism grids (3- and 4-node faces)"
 )
 ASSUMPTIONS = [
     "all boundary faces Dirichlet with data p(x_f); constant permeability, given as a 3x3 "
@@ -57,6 +57,12 @@ MIN_CLASSES = 6
 CHUNK = 16
 TOL = 1e-10
 KW = "flow"
+PRISMS = [  # extruded triangle grids: cells with triangular AND quadrilateral faces
+    {"kind": "prism", "n": [2, 2], "z": [0, 0.4, 1]},
+    {"kind": "prism", "n": [2, 1], "z": [0, 0.4, 1]},
+    {"kind": "prism", "n": [2, 2], "z": [0, 0.4, 1], "pert": [[4, [1, -1]]]},
+    {"kind": "prism", "n": [2, 1], "z": [0, 0.4, 1], "map": "shear"},
+]
 DARTS = [  # valid non-convex (dart) quadrilaterals: an interior node moved past a neighbour's diagonal
     {"kind": "cart", "n": [3, 3], "set": [[5, [0.05, 0.07]]]},
     {"kind": "cart", "n": [3, 3], "set": [[5, [0.05, 0.07]]], "map": "shear"},
@@ -171,6 +177,8 @@ def cases(tier):
     for kind, s1, s2 in seqs:
         for methods in (["rt0", "rt0"], ["mvem", "mvem"], ["rt0", "mvem"], ["mvem", "rt0"]):
             out.append({"grid": s1, "method": "+".join(methods), "seq": [kind, s1, s2], "methods": methods})
+    for sp in PRISMS:  # polyhedral cells with mixed face types: MVEM only
+        out.append({"grid": sp, "method": "mvem"})
     for sp in DARTS:
         out.append({"grid": sp, "method": "mvem"})
         out.append({"grid": dict(sp, embed="Rgen"), "method": "mvem"})
